@@ -28,6 +28,20 @@ def garbage(rnd, acc_texts, n):
             else: t[pos:pos] = rnd.choice(pieces) * rnd.randint(2, 5)
         out.append(list(t))
     out += [list(p * k) for p in pieces for k in (1, 2, 3)]
+    # operators and extra components around valid texts (systematic, not random)
+    pre = [b"^", b"~", b"~>", b"~> ", b"~=", b">=", b"<", b"=", b"==", b"!=", b"[", b"(", b"v", b"*", b">= ", b"==="]
+    suf = [b"", b".1", b".1.2", b".1.2.3", b".*", b".x", b"-", b"+", b",", b" - 2", b"||", b"]", b",)", b".0.0.0.0.0.0.0.0.0.0.0"]
+    for t in rnd.sample(acc_texts, min(len(acc_texts), n // 20)):
+        for a in pre:
+            out.append(list(a + t.encode() + rnd.choice(suf)))
+        for z in suf:
+            out.append(list(rnd.choice(pre) + t.encode() + z))
+    # non-ASCII letters and digits inside otherwise valid texts (parsers use unicode classes)
+    for t in rnd.sample(acc_texts, min(len(acc_texts), n // 10)):
+        for u in ("é", "ü", "١", "Ａ", "ß"):
+            pos = rnd.randint(0, len(t))
+            out.append(list((t[:pos] + u + t[pos:]).encode()))
+            out.append(list((t + u).encode()))
     return out
 
 def check(run):
@@ -37,7 +51,7 @@ def check(run):
     rnd = random.Random(run.seed)
     L = 3 if quick else 4
     strs, longs = strings(run, L)
-    U = vlib.universe(run, ["npm", "debian", "maven", "pypi", "alpine", "composer", "gem", "rpm"])
+    U = vlib.universe(run)
     texts = [t for e in U for t, _ in U[e]]
     garb = garbage(rnd, texts, 1500 if quick else 20000)
     if quick:
